@@ -59,7 +59,7 @@ fn render_unit(prelude: &str, cases: &[&Case]) -> String {
 
 fn scalar_grid(st: ST) -> Vec<Sc> {
     const INTS: [i32; 10] = [0, 1, 2, 3, -1, 7, 31, 32, i32::MIN, i32::MAX];
-    const UINTS: [u32; 8] = [0, 1, 2, 3, 7, 31, 32, u32::MAX];
+    const UINTS: [u32; 9] = [0, 1, 2, 3, 7, 31, 32, 0x8000_0000, u32::MAX];
     const FLOATS: [f64; 10] = [0.0, -0.0, 0.5, 1.0, -1.0, 2.5, 1e-3, 16777216.0, 3.4e38, f64::INFINITY];
     let mut out: Vec<Sc> = Vec::new();
     let mut push = |s: Sc| {
@@ -86,7 +86,7 @@ fn scalar_grid_small(st: ST) -> Vec<Sc> {
     let full = scalar_grid(st);
     match st {
         ST::Int | ST::LitInt => vec![Sc::I(0), Sc::I(1), Sc::I(-1), Sc::I(7), Sc::I(i32::MIN), Sc::I(i32::MAX)],
-        ST::UInt => vec![Sc::U(0), Sc::U(1), Sc::U(2), Sc::U(7), Sc::U(32), Sc::U(u32::MAX)],
+        ST::UInt => vec![Sc::U(0), Sc::U(1), Sc::U(7), Sc::U(32), Sc::U(0x8000_0000), Sc::U(u32::MAX)],
         ST::Bool => full,
         _ => vec![full[0], full[1], full[2], full[4], full[5], *full.last().unwrap()],
     }
@@ -1923,11 +1923,251 @@ fn struct_cast_programs() -> Vec<Space> {
     vec![Space { name: "struct_casts".into(), prelude: prelude.into(), cases }]
 }
 
+
+/// locals / parameters named after words that are reserved in a target (so the exporter must rename them) next to
+/// globals, functions and structs that are literally called `<word>_0` / `<word>_1` and are used in the same scope
+fn reserved_name_programs() -> Vec<Space> {
+    // reserved in HLSL (intrinsic names), in Metal (function / address-space qualifiers, C++ keywords), or in both
+    let words = ["step", "lerp", "min", "sign", "length", "dst", "lit", "dot", "saturate", "kernel", "vertex", "fragment", "device", "constant", "thread", "threadgroup", "main", "ptrdiff_t", "short2", "uchar", "size_t", "not_eq"];
+    let mut out = Vec::new();
+    for w in words {
+        for taken in 1..=2usize {
+            // `taken` generated-looking names exist already: <w>_0 (and <w>_1)
+            let others: String = (1..taken).map(|k| format!("static int {w}_{k} = {};\n", 50 + k)).collect();
+            let other_use: String = (1..taken).map(|k| format!(" + {w}_{k}")).collect();
+            let mut add = |kind: &str, prelude: String, cases: Vec<String>| {
+                out.push(Space { name: format!("names_{}_{}_{}", w, kind, taken), prelude, cases: cases.into_iter().map(|c| Case { src: c, tag: format!("decl|reserved-name|{}", kind) }).collect() });
+            };
+            add(
+                "static-global",
+                format!("static int {w}_0 = 100;\n{others}"),
+                vec![
+                    format!("int @(int a) {{ int {w} = a; {w}_0 += {w}; return {w} + {w}_0{other_use}; }}"),
+                    format!("int @(int {w}) {{ {w}_0 += {w}; return {w} + {w}_0 * 3{other_use}; }}"),
+                    format!("int @(int a) {{ int r = 0; for (int {w} = 0; {w} < 3; {w}++) {{ {w}_0 += {w} + a; r += {w}_0; }} return r{other_use}; }}"),
+                    format!("int @(int a) {{ {w}_0 += a; {{ int {w} = a * 2; {w}_0 += {w}; }} return {w}_0{other_use}; }}"),
+                    format!("int @(int a, out int {w}) {{ {w} = a + 1; {w}_0 -= {w}; return {w}_0{other_use}; }}"),
+                ],
+            );
+            add(
+                "static-const-global",
+                format!("static const int {w}_0 = 7;\n{others}"),
+                vec![format!("int @(int a) {{ int {w} = a; return {w}_0 * 10 + {w}{other_use}; }}"), format!("int @(int {w}) {{ return {w}_0 * 10 + {w}{other_use}; }}")],
+            );
+            add(
+                "function",
+                format!("int {w}_0(int x) {{ return x + 100; }}\n{others}"),
+                vec![format!("int @(int a) {{ int {w} = a; return {w}_0({w}) + {w}{other_use}; }}"), format!("int @(int {w}) {{ return {w}_0({w}) * 2 + {w}{other_use}; }}")],
+            );
+            add(
+                "struct",
+                format!("struct {w}_0 {{ int m; int get() {{ return m * 2; }} }};\n{others}"),
+                vec![format!("int @(int a) {{ int {w} = a; {w}_0 s; s.m = {w}; return s.get() + {w}{other_use}; }}"), format!("int @(int {w}) {{ {w}_0 s; s.m = {w} + 1; return s.get() + {w}{other_use}; }}")],
+            );
+            if taken == 1 {
+                add(
+                    "two-renamed-locals",
+                    format!("static int {w}_0 = 100;\nstatic int {w}_2 = 9;\n"),
+                    vec![format!("int @(int a) {{ int {w} = a; {w}_0 += {w}; {{ int {w} = a + 1; {w}_2 += {w}; }} return {w} + {w}_0 + {w}_2; }}")],
+                );
+                add(
+                    "global-and-callee-parameter",
+                    format!("static int {w}_0 = 100;\nint callee(int {w}) {{ {w}_0 += {w}; return {w}_0; }}\n"),
+                    vec![format!("int @(int a) {{ int {w} = a + 1; return callee({w}) + {w}_0 + {w}; }}")],
+                );
+            }
+        }
+    }
+    out
+}
+
+/// several enums with overlapping indices and different values: folded enum constants of every enum
+fn enum_programs() -> Vec<Space> {
+    let prelude = "enum Axis { X, Y, Z };\nenum Colour { Red = 10, Green = 20, Blue = 30 };\nnamespace NE { enum Mode { Off = 5, On = 6, Auto = 10, Last = 21 }; }\nenum Late { L0 = 3, L1 = 2, L2 = 1 };\nint byc(Colour c = Green) { return (int)c + 1; }\nint bym(NE::Mode m = NE::Auto) { return (int)m + 2; }\nstatic const Colour CK = Blue;\nstatic const int CN = (int)Z + 1;\n";
+    let mut cases: Vec<(String, &str)> = Vec::new();
+    for (e, first, cast, labels) in [
+        ("Axis", "axis", "(Axis)(a & 3)", [("X", 1), ("Y", 2), ("Z", 3)]),
+        ("Colour", "colour", "(Colour)(a * 10)", [("Red", 1), ("Green", 2), ("Blue", 3)]),
+        ("NE::Mode", "mode", "(NE::Mode)(a + 3)", [("NE::Off", 1), ("NE::On", 2), ("NE::Auto", 3)]),
+        ("Late", "late", "(Late)(a & 3)", [("L0", 1), ("L1", 2), ("L2", 3)]),
+    ] {
+        let sw: String = labels.iter().map(|(l, r)| format!("case {}: return {}; ", l, r)).collect();
+        let tag: &'static str = match first {
+            "axis" => "decl|enum|case-label|first-enum",
+            _ => "decl|enum|case-label|later-enum",
+        };
+        cases.push((format!("int @(int a) {{ {e} c = {cast}; switch (c) {{ {sw}}} return 0; }}"), tag));
+        cases.push((format!("int @(int a) {{ switch ({cast}) {{ {sw}default: return 9; }} }}"), tag));
+        let ft: String = labels.iter().map(|(l, r)| format!("case {}: r += {}; ", l, r)).collect();
+        cases.push((format!("int @(int a) {{ int r = 0; switch ({cast}) {{ {ft}break; default: r = 50; }} return r; }}"), tag));
+        let (l0, l1, l2) = (labels[0].0, labels[1].0, labels[2].0);
+        cases.push((format!("int @(int a) {{ {e} c = a > 1 ? {l1} : (a > 0 ? {l2} : {l0}); return (int)c * 2 + (c == {l1} ? 100 : 0) + (c != {l0} ? 1000 : 0); }}"), "decl|enum|value-uses"));
+        cases.push((format!("int @(int a) {{ return (int){l0} + (int){l1} * 3 + (int){l2} * 7 + a; }}"), "decl|enum|value-uses"));
+        cases.push((format!("int @(int a) {{ {e} c = {cast}; return c < {l1} ? 1 : (c > {l1} ? 2 : 3); }}"), "decl|enum|value-uses"));
+    }
+    cases.push(("int @(int a) { return byc() * 1000 + byc(Red) * 10 + bym() + a; }".into(), "decl|enum|default-argument"));
+    cases.push(("int @(int a) { int arr[CN]; for (int i = 0; i < CN; i++) arr[i] = i + a; return arr[(int)Y] * 10 + arr[CN - 1]; }".into(), "decl|enum|array-size"));
+    cases.push(("int @(int a) { int arr[(int)L0 + (int)NE::Off] = { 1, 2, 3, 4, 5, 6, 7, 8 }; return arr[(int)L1] * 10 + arr[7] + a; }".into(), "decl|enum|array-size"));
+    cases.push(("int @(int a) { Colour c = CK; switch (c) { case Blue: return 1; default: return (int)CK + a; } }".into(), "decl|enum|case-label|later-enum"));
+    cases.push(("int @(int a) { switch (a) { case (int)Green: return 1; case (int)NE::Last: return 2; case (int)L0: return 3; case (int)Z: return 4; } return 0; }".into(), "decl|enum|case-label|cast-to-int"));
+    cases.push(("int @(int a) { int r = 0; for (int i = 0; i < 4; i++) { switch ((Late)i) { case L2: r += 1; break; case L1: r += 10; break; case L0: r += 100; break; default: r += 1000; } } return r + a; }".into(), "decl|enum|case-label|later-enum"));
+    vec![Space { name: "enums_multi".into(), prelude: prelude.into(), cases: cases.into_iter().map(|(s, t)| Case { src: s, tag: t.into() }).collect() }]
+}
+
+/// chains through which a function needs a global only transitively, with the intermediate function registered *after*
+/// its caller: template instantiations, struct methods in every definition order, forward declarations
+fn ordering_programs() -> Vec<Space> {
+    let mut out = Vec::new();
+    let wrap = |names: &[&str], tag: &str| -> Vec<Case> { names.iter().map(|n| Case { src: format!("int @(int x) {{ return {}(x); }}", n), tag: tag.to_string() }).collect() };
+    // templates
+    let leaf = "static int GA = 1;\nstatic float GF = 0.5f;\nint leaf(int x) { GA += x + 1; return GA * 2; }\n";
+    for (name, body) in [
+        ("one-level", "template<typename T> T mid(T x) { return (T)leaf((int)x) + x; }\nint top(int n) { return mid(n) + 1; }\nint top2(int n) { return top(n) * 3; }\n"),
+        ("one-level-two-types", "template<typename T> T mid(T x) { return (T)leaf((int)x) + x; }\nint top(int n) { return mid(n) + (int)mid(0.5f + n); }\nint top2(int n) { return top(n) * 3; }\n"),
+        ("two-levels", "template<typename T> T low(T x) { return (T)leaf((int)x) + x; }\ntemplate<typename T> T mid(T x) { return low(x) * 2; }\nint top(int n) { return mid(n) + 1; }\nint top2(int n) { return top(n) * 3 + (int)mid(1.5f); }\n"),
+        ("template-touches-directly", "template<typename T> T mid(T x) { GF += 1.0f; return x + (T)GF; }\nint top(int n) { return mid(n) + 1; }\nint top2(int n) { return top(n) * 3; }\n"),
+        ("template-below-function", "template<typename T> T low(T x) { GA += 2; return x + (T)GA; }\nint mid(int x) { return low(x) * 2; }\nint top(int n) { return mid(n) + 1; }\nint top2(int n) { return top(n) + (int)low(2.5f); }\n"),
+        ("explicit-template-arguments", "template<typename T> T mid(T x) { return (T)leaf((int)x) + x; }\nint top(int n) { return (int)mid<float>(n) + mid<int>(n); }\nint top2(int n) { return top(n) * 3; }\n"),
+        ("value-parameter", "template<int N> int mid(int x) { return leaf(x) + N; }\nint top(int n) { return mid<3>(n) + mid<4>(n); }\nint top2(int n) { return top(n) * 3; }\n"),
+    ] {
+        out.push(Space { name: format!("order_template_{}", name), prelude: format!("{}{}", leaf, body), cases: wrap(&["top", "top2"], "decl|global-threading|template-chain") });
+    }
+    // struct methods: a -> b -> c, c touches the global; every definition order; caller chains of length 1 and 2
+    let methods = [("a", "int a(int x) { return b(x) * 2 + v; }"), ("b", "int b(int x) { return c(x) + 1; }"), ("c", "int c(int x) { GA += x + v; return GA; }")];
+    let perms: [[usize; 3]; 6] = [[0, 1, 2], [0, 2, 1], [1, 0, 2], [1, 2, 0], [2, 0, 1], [2, 1, 0]];
+    for perm in perms {
+        let body: String = perm.iter().map(|k| methods[*k].1).collect::<Vec<_>>().join(" ");
+        let order: String = perm.iter().map(|k| methods[*k].0).collect();
+        let prelude = format!("static int GA = 1;\nstruct K {{ int v; {} }};\nint top(int n) {{ K k; k.v = 2; return k.a(n) + k.v; }}\nint top2(int n) {{ return top(n) * 3; }}\nint topb(int n) {{ K k; k.v = 1; return k.b(n); }}\n", body);
+        out.push(Space { name: format!("order_methods_{}", order), prelude, cases: wrap(&["top", "top2", "topb"], "decl|global-threading|method-order") });
+    }
+    // two methods, the first calls the second; the second calls a free function / a template that touches the global
+    for (name, free, second) in [
+        ("method-to-free-function", "int leaf(int x) { GA += x + 1; return GA * 2; }\n", "int second(int x) { return leaf(x) + v; }"),
+        ("method-to-template", "template<typename T> T leaf(T x) { GA += 1; return x + (T)GA; }\n", "int second(int x) { return leaf(x) + v; }"),
+        ("method-writes-member-and-global", "", "int second(int x) { v += x; GA += v; return GA; }"),
+    ] {
+        for first_before in [true, false] {
+            let first = "int first(int x) { return second(x) * 2; }";
+            let body = if first_before { format!("{} {}", first, second) } else { format!("{} {}", second, first) };
+            let prelude = format!("static int GA = 1;\n{}struct K {{ int v; {} }};\nint top(int n) {{ K k; k.v = 2; return k.first(n) + k.v; }}\nint top2(int n) {{ return top(n) * 3; }}\n", free, body);
+            out.push(Space { name: format!("order_{}_{}", name, first_before), prelude, cases: wrap(&["top", "top2"], "decl|global-threading|method-order") });
+        }
+    }
+    // forward declarations
+    for (name, body) in [
+        ("forward-declared-leaf", "int leaf(int x);\nint mid(int x) { return leaf(x) * 2; }\nint leaf(int x) { GA += x + 1; return GA; }\nint top(int n) { return mid(n) + 1; }\n"),
+        ("forward-declared-mid", "int leaf(int x) { GA += x + 1; return GA; }\nint mid(int x);\nint top(int n) { return mid(n) + 1; }\nint mid(int x) { return leaf(x) * 2; }\n"),
+        ("forward-declared-both", "int mid(int x);\nint leaf(int x);\nint top(int n) { return mid(n) + 1; }\nint mid(int x) { return leaf(x) * 2; }\nint leaf(int x) { GA += x + 1; return GA; }\n"),
+    ] {
+        out.push(Space { name: format!("order_{}", name), prelude: format!("static int GA = 1;\n{}", body), cases: wrap(&["top", "mid", "leaf"], "decl|global-threading|forward-declaration") });
+    }
+    out
+}
+
+/// exact built-in functions with an integer (or reinterpreted) result as the direct operand of every operation that is
+/// sensitive to the signedness / type of that result
+fn gen_intrinsic_compositions() -> Vec<Case> {
+    // (name, parameter list, expression)
+    let children: [(&str, &str, &str); 30] = [
+        ("asint(float)", "float f", "asint(f)"),
+        ("asint(uint)", "uint u", "asint(u)"),
+        ("asuint(float)", "float f", "asuint(f)"),
+        ("asuint(int)", "int i", "asuint(i)"),
+        ("asfloat(uint)", "uint u", "asfloat(u & 0x807fffffu)"),
+        ("asint(asfloat)", "uint u", "asint(asfloat(u & 0x807fffffu))"),
+        ("asuint(asfloat)", "uint u", "asuint(asfloat(u & 0x807fffffu))"),
+        ("asfloat(asuint)", "float f", "asfloat(asuint(f))"),
+        ("asfloat(asint)", "float f", "asfloat(asint(f))"),
+        ("asint(asuint)", "float f", "asint(asuint(f))"),
+        ("asuint(asint)", "float f", "asuint(asint(f))"),
+        ("firstbithigh(uint)", "uint u", "firstbithigh(u)"),
+        ("firstbithigh(int)", "int i", "firstbithigh(i)"),
+        ("firstbitlow(uint)", "uint u", "firstbitlow(u)"),
+        ("firstbitlow(int)", "int i", "firstbitlow(i)"),
+        ("countbits", "uint u", "countbits(u)"),
+        ("reversebits", "uint u", "reversebits(u)"),
+        ("sign(float)", "float f", "sign(f)"),
+        ("sign(int)", "int i", "sign(i)"),
+        ("f32tof16", "float f", "f32tof16(f)"),
+        ("abs(int)", "int i", "abs(i)"),
+        ("min(int)", "int i", "min(i, -2)"),
+        ("max(int)", "int i", "max(i, -2)"),
+        ("clamp(int)", "int i", "clamp(i, -5, 5)"),
+        ("dot(int)", "int i", "dot(int2(i, 1), int2(-1, 2))"),
+        ("cast-uint-to-int", "uint u", "(int)u"),
+        ("cast-int-to-uint", "int i", "(uint)i"),
+        ("cast-bool-to-int", "float f", "(int)(f < 0.0f)"),
+        ("any", "int i", "any(int2(i, 0))"),
+        ("isnan", "float f", "isnan(f)"),
+    ];
+    let parents: [(&str, &str, &str); 34] = [
+        ("Shr31", "int", "# >> 31"),
+        ("Shr1", "int", "# >> 1"),
+        ("ShrVar", "int", "# >> (s & 7)"),
+        ("Shl1", "int", "# << 1"),
+        ("Lt0", "bool", "# < 0"),
+        ("Le0", "bool", "# <= 0"),
+        ("Gt0", "bool", "# > 0"),
+        ("Ge1", "bool", "# >= 1"),
+        ("LtVar", "bool", "# < s"),
+        ("EqMinus1", "bool", "# == -1"),
+        ("Div2", "int", "# / 2"),
+        ("DivMinus3", "int", "# / -3"),
+        ("Mod3", "int", "# % 3"),
+        ("Mul", "int", "# * -3"),
+        ("CastFloat", "float", "(float)#"),
+        ("ImplicitFloat", "float", "#"),
+        ("MulFloat", "float", "# * 0.5f"),
+        ("AddFloat", "float", "# + 0.25f"),
+        ("Minus", "int", "-#"),
+        ("BitNotShr", "int", "~# >> 30"),
+        ("Abs", "int", "abs(#)"),
+        ("Min0", "int", "min(#, 0)"),
+        ("Max0", "int", "max(#, 0)"),
+        ("Sign", "int", "sign(#)"),
+        ("Clamp", "int", "clamp(#, -1, 1)"),
+        ("FirstBitHigh", "int", "firstbithigh(#)"),
+        ("CastUIntDiv", "uint", "(uint)# / 3u"),
+        ("CastIntDiv", "int", "(int)# / 3"),
+        ("CastBool", "bool", "(bool)#"),
+        ("Ternary", "int", "# ? 1 : 2"),
+        ("TernaryArm", "float", "s > 0 ? # : 0.5f"),
+        ("Not", "bool", "!#"),
+        ("CompoundShr", "int", "t >>= #"),
+        ("Index", "int", "arr[# & 3]"),
+    ];
+    let mut out = Vec::new();
+    for (cn, cp, ce) in children {
+        for (pn, rt, pe) in parents {
+            let expr = pe.replace('#', &format!("({})", ce));
+            let pre = if pe.contains("arr[") {
+                "int arr[4] = { 5, 6, 7, 8 }; "
+            } else if pe.contains("t >>=") {
+                "int t = -64; "
+            } else {
+                ""
+            };
+            out.push(case(format!("{rt} @({cp}, int s) {{ {pre}return {expr}; }}"), format!("expr|{}>{}", pn, cn)));
+        }
+    }
+    // component-wise forms
+    for (cn, cp, ce) in [("asint(float3)", "float3 f", "asint(f)"), ("asuint(float3)", "float3 f", "asuint(f)"), ("asint(uint3)", "uint3 u", "asint(u)"), ("sign(float3)", "float3 f", "sign(f)"), ("firstbithigh(int3)", "int3 i", "firstbithigh(i)"), ("countbits(uint3)", "uint3 u", "countbits(u)")] {
+        for (pn, rt, pe) in [("Shr31", "int3", "# >> 31"), ("Lt0", "bool3", "# < 0"), ("Div2", "int3", "# / 2"), ("CastFloat", "float3", "(float3)#"), ("MulFloat", "float3", "# * 0.5f"), ("Minus", "int3", "-#"), ("Abs", "int3", "abs(#)"), ("Max0", "int3", "max(#, 0)")] {
+            out.push(case(format!("{rt} @({cp}) {{ return {}; }}", pe.replace('#', &format!("({})", ce))), format!("expr|{}>{}", pn, cn)));
+        }
+    }
+    out
+}
+
 /// the small whole programs shared by C01 and C02
 pub fn program_spaces(ctx: &Ctx) -> Vec<Space> {
     let mut v = global_alias_programs();
     v.extend(position_programs(!ctx.quick()));
     v.extend(struct_cast_programs());
+    v.extend(reserved_name_programs());
+    v.extend(enum_programs());
+    v.extend(ordering_programs());
     v
 }
 
@@ -1983,6 +2223,7 @@ pub fn spaces(ctx: &Ctx) -> Vec<Space> {
         v.push(Space { name: format!("decl{}", i), prelude: d.prelude, cases: d.cases });
     }
     v.push(Space { name: "literals".into(), prelude: String::new(), cases: gen_literals() });
+    v.push(Space { name: "intrinsic_compositions".into(), prelude: String::new(), cases: gen_intrinsic_compositions() });
     let full = full_alphabet();
     if quick {
         // depth 2: full alphabet with variable leaves; class alphabet with the literal leaf forms
@@ -2058,7 +2299,7 @@ pub fn run(ctx: &Ctx) -> i32 {
         ),
     );
     rep.assumptions.push("HLSL semantics are those of exec::c_interp (dynamic typing under the C-like rules of HLSL 2021: literal typing by suffix, usual arithmetic conversions, implicit conversions at initialisers / assignments / arguments / returns, copy-in/copy-out), not of a real HLSL compiler; the rssl lexer/parser is trusted as the reader of emitted text (checked by C09/C10)".into());
-    rep.assumptions.push("value dimension: boundary grid per scalar type (ints {0,1,2,3,-1,7,31,32,INT_MIN,INT_MAX}, uints {0,1,2,3,7,31,32,UINT_MAX}, floats {0,-0,0.5,1,-1,2.5,1e-3,16777216,3.4e38,inf}, vectors with distinct components); all tuples when there are at most 100 per function, otherwise a deterministic greedy pairwise-covering subset over a 6-value grid per parameter: the program dimension is exhaustive within each space, the input dimension is covering".into());
+    rep.assumptions.push("value dimension: boundary grid per scalar type (ints {0,1,2,3,-1,7,31,32,INT_MIN,INT_MAX}, uints {0,1,2,3,7,31,32,0x80000000,UINT_MAX}, floats {0,-0,0.5,1,-1,2.5,1e-3,16777216,3.4e38,inf}, vectors with distinct components); all tuples when there are at most 100 per function, otherwise a deterministic greedy pairwise-covering subset over a 6-value grid per parameter: the program dimension is exhaustive within each space, the input dimension is covering".into());
     rep.assumptions.push("S1-S11 of DESIGN 4.5: 32-bit wrap-around, shift counts mod 32, IEEE single operations without contraction, half = binary32 operation rounded to binary16, operands and arguments evaluated left to right, copy-in/copy-out in parameter order, static globals initialised once per evaluation; NaN results compare equal, +0/-0 are distinguished; cases where the source itself does something HLSL leaves unspecified are skipped on both sides and counted".into());
     rep.assumptions.push("f' is the function at the same position in declaration order of the emitted text (the exporter may rename); static globals are matched by declaration order".into());
     finish(ctx, rep)
